@@ -1,4 +1,5 @@
 import Cirbo.Proofs.EvalCor
+import Cirbo.Proofs.LazyTerm
 import Cirbo.Model.Checkers
 /-!
 # C15 — Evaluation under partial assignments is sound and monotone
@@ -16,7 +17,9 @@ regenerated from `operators.py` (`Cirbo.Gen.op*`).
 -- OBLIGATION: c15_sound_lazy
 -- OBLIGATION: c15_mono_lazy_outputs
 -- OBLIGATION: c15_total_lazy_outputs
--- PARTIAL: evaluate_circuit: monotonicity/totality are proved for the requested outputs (and soundness for every gate); for non-output gates of the lazy evaluator "same set of evaluated gates under both assignments" is not proved. Termination of the explicit-stack loop within the model's fuel is validated by correspondence, not proved.
+-- OBLIGATION: c15_lazy_returns
+-- OBLIGATION: c15_lazy_terminates
+-- PARTIAL: evaluate_circuit: monotonicity/totality are proved for the requested outputs (and soundness for every gate); for non-output gates of the lazy evaluator "same set of evaluated gates under both assignments" is not proved.
 -/
 namespace Cirbo
 open GateType V3
@@ -139,6 +142,22 @@ theorem c15_total_lazy_outputs {c : Circuit} (h : WFU c) (b : Label → Bool)
   have := val3_total_defined h.toWF hv' g hg
   rwa [hgl] at this
 
+/-- **The demand-driven evaluator returns**: on a well-formed circuit, for every partial assignment to
+inputs (Undefined inputs included) and every list of existing requested outputs, the explicit-stack loop
+terminates within its step budget and raises nothing. -/
+theorem c15_lazy_returns {c : Circuit} (h : WFU c) (asg : Asg) (outs : Option (List Label))
+    (hasg : ∀ g ∈ c.gates, g.ty ≠ INPUT → asg.get? g.label = none)
+    (houts : ∀ o ∈ outs.getD c.outputs, o ∈ c.labels) : ∃ d, evalLazy c asg outs = .ok d := by
+  obtain ⟨e, _, hv, _⟩ := evalFull_spec h asg
+  exact evalLazy_ok h.toWF asg outs hasg houts hv
+
+/-- and the step budget is never the reason for an error, whatever the assignment and the request,
+on any acyclic circuit with distinct labels -/
+theorem c15_lazy_terminates {c : Circuit} (hnd : c.labels.Nodup)
+    (hrank : ∃ r : Label → Nat, ∀ g ∈ c.gates, ∀ o ∈ g.ops, r o < r g.label)
+    (asg : Asg) (outs : Option (List Label)) : evalLazy c asg outs ≠ .error "fuel" :=
+  evalLazy_terminates hnd hrank asg outs
+
 /-! Non-vacuity: the hypotheses are satisfiable (a concrete `WFU` circuit), and the evaluators
 return on a circuit with sharing, a repeated operand and a 3-ary gate. -/
 def exTiny : Circuit :=
@@ -189,5 +208,7 @@ example : (evalLazy exC [("b", T)] none).toOption = some [("b", T), ("a", U), ("
 #print axioms c15_sound_lazy
 #print axioms c15_mono_lazy_outputs
 #print axioms c15_total_lazy_outputs
+#print axioms c15_lazy_returns
+#print axioms c15_lazy_terminates
 
 end Cirbo
